@@ -103,25 +103,29 @@ Section Jwt.
         else if negb ismap then (p', unauthorized cb)               (* claims not MapClaims *)
         else (p', mkj 200 true (ctx_of claims) false)
     end.
-
-  (* a history of requests through one middleware instance: (virtual now, token) *)
-  Fixpoint run_jwt (cb : callback) (p : pstate) (secret prev : N) (reqs : list (Z * N)) : pstate * list jout :=
-    match reqs with
-    | [] => (p, [])
-    | (now, tok) :: r =>
-        let '(p1, o) := authorize cb now p secret prev tok in
-        let '(p2, os) := run_jwt cb p1 secret prev r in
-        (p2, o :: os)
-    end.
-
-  Fixpoint run_parser (p : pstate) (secret prev : N) (reqs : list (Z * N)) : list (pstate * option jverdict) :=
-    match reqs with
-    | [] => []
-    | (now, tok) :: r =>
-        let '(p1, v) := parse_token now p secret prev tok in
-        (p1, v) :: run_parser p1 secret prev r
-    end.
 End Jwt.
+
+(* The library reads the clock (jwt.TimeFunc) while validating exp/nbf/iat: its verdict is a function
+   of the time of the request. jwt_at jt = the library at wall-clock reading jt.
+   A history of requests through one middleware instance: ((timex now, wall-clock jt), token). *)
+Fixpoint run_jwt (jwt_at : Z -> N -> N -> jverdict) (cb : callback) (p : pstate) (secret prev : N)
+         (reqs : list (Z * Z * N)) : pstate * list jout :=
+  match reqs with
+  | [] => (p, [])
+  | (now, jt, tok) :: r =>
+      let '(p1, o) := authorize (jwt_at jt) cb now p secret prev tok in
+      let '(p2, os) := run_jwt jwt_at cb p1 secret prev r in
+      (p2, o :: os)
+  end.
+
+Fixpoint run_parser (jwt_at : Z -> N -> N -> jverdict) (p : pstate) (secret prev : N)
+         (reqs : list (Z * Z * N)) : list (pstate * option jverdict) :=
+  match reqs with
+  | [] => []
+  | (now, jt, tok) :: r =>
+      let '(p1, v) := parse_token (jwt_at jt) now p secret prev tok in
+      (p1, v) :: run_parser jwt_at p1 secret prev r
+  end.
 
 (* ------------------------------------------------------------------------------------------ *)
 (* (SIG) byte strings                                                                          *)
@@ -355,6 +359,51 @@ Section Sig.
 End Sig.
 
 (* ------------------------------------------------------------------------------------------ *)
+(* (SIG) api/engine.go: one signature verifier per route group                                  *)
+
+(* SignatureConfig.PrivateKeys in configuration order: (fingerprint, private key id) *)
+Definition group_conf := list (bytes * N).
+
+(* signatureVerifier :241-252 : decryptors[key.Fingerprint] = NewRsaDecryptor(key.KeyFile); a later
+   entry with the same fingerprint overwrites the earlier one *)
+Definition decryptor_map (keys : group_conf) : list (bytes * N) :=
+  fold_left (fun m kv => aset bytes_eqb (fst kv) (snd kv) m) keys [].
+
+Record group := mkg { g_keys : group_conf; g_strict : bool; g_tol : Z }.   (* a featuredRoutes with WithSignature *)
+
+Section Engine.
+  Variable rsa_key_dec : N -> bytes -> option bytes.      (* DecryptBase64 under private key k *)
+  Variable b64_dec : bytes -> option bytes.
+  Variable hmac_b64 : bytes -> bytes -> bytes.
+  Variable sha_hex : bytes -> bytes.
+  Variable url_parse : bytes -> option (bytes * bytes).
+  Variable body_dec : bytes -> request -> dec_res.
+
+  (* the ContentSecurityHandler built from THIS group's decryptors map, strictness and tolerance *)
+  Definition group_gate (g : group) (now : Z) (r : request) : sout :=
+    let m := decryptor_map (g_keys g) in
+    content_security_gate (map fst m)
+      (fun fp s => match alookup bytes_eqb fp m with Some k => rsa_key_dec k s | None => None end)
+      b64_dec hmac_b64 sha_hex url_parse body_dec (g_strict g) (g_tol g) now r.
+
+  (* signatureVerifier :223-260 ; None = ErrSignatureConfig (strict without keys), no keys and
+     non-strict = no gate at all *)
+  Definition signature_verifier (g : group) : option (Z -> request -> sout) :=
+    match g_keys g with
+    | [] => if g_strict g then None else Some (fun _ _ => ran_ok)
+    | _ => Some (group_gate g)
+    end.
+
+  (* bindRoutes / bindFeaturedRoutes :72-127 : the routes of the i-th registered group are bound
+     behind the i-th group's verifier; None = bind error or no such group *)
+  Definition engine_gate (groups : list group) (i : nat) (now : Z) (r : request) : option sout :=
+    match nth_error groups i with
+    | Some g => match signature_verifier g with Some gate => Some (gate now r) | None => None end
+    | None => None
+    end.
+End Engine.
+
+(* ------------------------------------------------------------------------------------------ *)
 (* (RPC) auth.go                                                                               *)
 
 (* grpc codes *)
@@ -395,3 +444,14 @@ Definition authenticate (strict : bool) (cache : list (N * N)) (store : N -> sto
       | _, _ => (cache, rpc_unauthenticated)
       end
   end.
+
+(* authinterceptor.go: UnaryAuthorizeInterceptor :11-19 / StreamAuthorizeInterceptor :22-30 --
+   Authenticate(ctx); on error return it without calling the handler, else call the handler.
+   info (FullMethod) is a parameter of both and is never read. Result: (cache, code, handler ran) *)
+Inductive rpc_mode := Unary | Stream.
+
+Definition intercept (mode : rpc_mode) (full_method : N) (strict : bool) (cache : list (N * N))
+           (store : N -> store_res) (md : rpc_md) : list (N * N) * Z * bool :=
+  let '(cache', code) := authenticate strict cache store md in
+  if code =? rpc_ok then (cache', rpc_ok, true)     (* handler(ctx, req) / handler(srv, stream) answers nil *)
+  else (cache', code, false).
